@@ -31,6 +31,10 @@ type Job struct {
 	// used less than a tenth of it as CPU time (a deadlock), or after four times as long in any case, is
 	// logged with stage "hang" and the worker exits with status 4
 	ItemTimeoutS int `json:"item_timeout_s,omitempty"`
+	// MemLimitMB > 0: address-space limit the worker puts on itself (RLIMIT_AS), so that unbounded recursion that
+	// allocates ends as "fatal error: out of memory" in this process instead of exhausting the machine
+	// (not usable in race-instrumented builds, which reserve a large shadow region)
+	MemLimitMB int `json:"mem_limit_mb,omitempty"`
 }
 
 type Line struct {
@@ -85,6 +89,10 @@ func main() {
 		}
 	}
 	debug.SetMaxStack(256 << 20)
+	if job.MemLimitMB > 0 {
+		lim := uint64(job.MemLimitMB) << 20
+		_ = syscall.Setrlimit(syscall.RLIMIT_AS, &syscall.Rlimit{Cur: lim, Max: lim})
+	}
 	out, err := os.OpenFile(job.Out, os.O_CREATE|os.O_WRONLY|os.O_APPEND, 0o644)
 	if err != nil {
 		fmt.Println("ERROR", err)
